@@ -171,8 +171,10 @@ Proof.
 Qed.
 
 Lemma isOrExtends_embed g st x c d :
-  p_isOrExtends g (embed_exc st x) (NC c) (NI d) = mem_nat d (cflat g st c).
-Proof. unfold p_isOrExtends. cbn [kfuel embed_exc kclasses]. apply mem_nat_same. apply kflat_embed. Qed.
+  p_isOrExtends g (embed_exc st x) (NC c) (NI d) = implied_by (cflat g st c) d.
+Proof.
+  unfold p_isOrExtends, implied_by. cbn [kfuel embed_exc kclasses]. f_equal. apply mem_nat_same. apply kflat_embed.
+Qed.
 
 (* ------------------------------------------------------------------ _add_interfaces_to_cls *)
 Lemma generated_add_interfaces_to_cls_eq g st x l d :
@@ -408,13 +410,13 @@ Qed.
 Lemma kdedup_map_NC l : kdedup (map NC l) = map NC (dedup l).
 Proof. induction l as [|x l IH]; cbn; auto. f_equal. rewrite IH, filter_map. auto. Qed.
 
-Lemma elision_filter g st x c (D : list node) l :
+Lemma elision_filter g st x c decl l :
   filter (fun x0 => orb (negb (p_isOrExtends g (embed_exc st x) (NC c) x0))
-                        (andb (p_is_root x0) (negb (p_truth D)))) (map NI l)
-  = map NI (keepnew (cflat g st c) l).
+                        (andb (p_is_root x0) (negb (p_truth (map NI decl))))) (map NI l)
+  = map NI (celide (cflat g st c) decl l).
 Proof.
-  rewrite filter_map. f_equal. unfold keepnew. apply filter_ext. intros a.
-  rewrite isOrExtends_embed. cbn [p_is_root andb]. apply orb_false_r.
+  rewrite filter_map. f_equal. unfold celide. apply filter_ext. intros a.
+  rewrite isOrExtends_embed. cbn [p_is_root node_eqb]. f_equal. f_equal. destruct decl; reflexivity.
 Qed.
 
 Lemma generated_classImplements_ordered_eq g st x c b a :
@@ -422,12 +424,12 @@ Lemma generated_classImplements_ordered_eq g st x c b a :
   gen_classImplements_ordered g (embed_exc st x) (NC c) (map NI b) (map NI a) =
   embed_exc (class_ordered true g st c b a) x.
 Proof.
-  intros ND. unfold gen_classImplements_ordered. cbv zeta. rewrite !elision_filter.
+  intros ND. unfold gen_classImplements_ordered. cbv zeta.
   unfold class_ordered. destruct (nth_error (classes st) c) as [r|] eqn:E.
   - assert (Hd : p_declared (embed_exc st x) (NC c) = map NI (c_decl r)).
     { unfold p_declared, kget. cbn [embed_exc kclasses]. rewrite nth_error_embed_cls, E. auto. }
-    rewrite Hd, <- !map_app.
-    set (L := keepnew (cflat g st c) b ++ c_decl r ++ keepnew (cflat g st c) a).
+    rewrite Hd, !elision_filter, <- !map_app.
+    set (L := celide (cflat g st c) (c_decl r) b ++ c_decl r ++ celide (cflat g st c) (c_decl r) a).
     destruct (fold_dedupe_gen (map NI L) (embed_exc st x) [] [] [] (fun _ => eq_refl)) as [seen' [E1 H1]].
     rewrite E1. clear E1. rewrite dd_nil, kdedup_map_NI in *.
     assert (Hlen : c < length (map embed_cls (classes st))) by (rewrite map_length; eapply nth_error_lt; eauto).
@@ -468,7 +470,11 @@ Proof.
   - assert (Hd : p_declared (embed_exc st x) (NC c) = []).
     { unfold p_declared, kget. cbn [embed_exc kclasses]. rewrite nth_error_embed_cls, E. auto. }
     rewrite Hd.
-    destruct (fold_dedupe_gen (map NI (keepnew (cflat g st c) b) ++ [] ++ map NI (keepnew (cflat g st c) a))
+    assert (Hf : forall l, filter (fun x0 => orb (negb (p_isOrExtends g (embed_exc st x) (NC c) x0))
+                                                (andb (p_is_root x0) (negb (p_truth [])))) (map NI l)
+                           = map NI (celide (cflat g st c) [] l)) by (intros; apply (elision_filter g st x c [] l)).
+    rewrite !Hf.
+    destruct (fold_dedupe_gen (map NI (celide (cflat g st c) [] b) ++ [] ++ map NI (celide (cflat g st c) [] a))
                               (embed_exc st x) [] [] [] (fun _ => eq_refl)) as [seen' [E1 H1]].
     rewrite E1. clear E1.
     assert (Hs : forall l, p_set_declared (embed_exc st x) (NC c) l = embed_exc st x).
@@ -495,14 +501,15 @@ Qed.
 
 Lemma generated_classImplements_eq g st x c l :
   NoDup (map fst (cache st)) ->
+  (forall r, nth_error (classes st) c = Some r -> c_plain r = c_decl r) ->
   gen_classImplements g (embed_exc st x) (RClass c) (map NI l) = embed_exc (class_implements true g st c l) x.
 Proof.
-  intros ND. unfold gen_classImplements. cbv zeta. cbn [p_implementedBy p_normalizeargs].
+  intros ND Hpl. unfold gen_classImplements. cbv zeta. cbn [p_implementedBy p_normalizeargs].
   rewrite fold_split_gen. cbn [app]. unfold p_normalizeargs.
   unfold class_implements. destruct (nth_error (classes st) c) as [r|] eqn:E.
   - assert (Hd : p_declared (embed_exc st x) (NC c) = map NI (c_decl r)).
     { unfold p_declared, kget. cbn [embed_exc kclasses]. rewrite nth_error_embed_cls, E. auto. }
-    rewrite Hd, !filter_map.
+    rewrite Hd, !filter_map, (Hpl r eq_refl).
     rewrite generated_classImplements_ordered_eq by auto. f_equal. f_equal.
     + apply filter_ext. intros i. rewrite existsb_map. auto.
     + apply filter_ext. intros i. rewrite existsb_map. auto.
@@ -516,12 +523,20 @@ Proof.
   destruct (p e); cbn; auto. constructor; auto. intro Hin. apply H2. eapply In_map_fst_filter; eauto.
 Qed.
 
-Lemma generated_classImplementsOnly_eq g st x c l :
+(* which elements of ``declared`` are interfaces themselves is not part of the kernel state *)
+Lemma embed_set_plain st c pl x : embed_exc (set_plain st c pl) x = embed_exc st x.
+Proof.
+  unfold set_plain. destruct (nth_error (classes st) c) as [r|] eqn:E; auto.
+  unfold embed_exc. cbn [classes insts cache]. f_equal. rewrite map_upd.
+  apply upd_same_id. rewrite nth_error_map, E. reflexivity.
+Qed.
+
+Lemma generated_classImplementsOnly_eq g st x c l pl :
   NoDup (map fst (cache st)) ->
-  gen_classImplementsOnly g (embed_exc st x) (RClass c) (map NI l) = embed_exc (class_only true g st c l) x.
+  gen_classImplementsOnly g (embed_exc st x) (RClass c) (map NI l) = embed_exc (class_only true g st c l pl) x.
 Proof.
   intros ND. unfold gen_classImplementsOnly. cbv zeta. cbn [p_implementedBy].
-  unfold class_only. destruct (nth_error (classes st) c) as [r|] eqn:E.
+  unfold class_only. destruct (nth_error (classes st) c) as [r|] eqn:E; [rewrite embed_set_plain|].
   - assert (Hlen : c < length (map embed_cls (classes st))) by (rewrite map_length; eapply nth_error_lt; eauto).
     unfold p_set_declared, p_set_inherit_none, kset. cbn [embed_exc kclasses kinsts kcache kexc].
     rewrite nth_error_embed_cls, E. cbn [option_map kclasses]. rewrite nth_error_upd_eq by auto.
@@ -531,7 +546,7 @@ Proof.
     fold (kst (upd (map embed_cls (classes st)) c k2) st x).
     rewrite (set_bases_kst g st x _ c k2); auto.
     + rewrite upd_upd.
-      replace (mkK _ _ _ x) with (embed_exc (set_class true st c (mkC (c_bases r) [] false (c_cprov r) (c_meta r) (c_builtin r))) x).
+      replace (mkK _ _ _ x) with (embed_exc (set_class true st c (mkC (c_bases r) [] false (c_cprov r) (c_meta r) (c_builtin r) [])) x).
       * change (@nil node) with (map NI []). apply generated_classImplements_ordered_eq.
         cbn [set_class cache evict]. apply NoDup_map_fst_filter; auto.
       * unfold set_class, embed_exc. cbn [classes insts cache]. f_equal. rewrite map_upd. f_equal.
@@ -656,7 +671,7 @@ Proof.
                                  (gen_add_interfaces_to_cls g (embed_exc st x) (map NI l) (meta_ref (c_meta r))) (c_meta r) (c_builtin r) true None))
                       (map embed_inst (insts st)) (map embed_entry (cache st)) x =
                      embed_exc (mkS (upd (classes st) c (mkC (c_bases r) (c_decl r) (c_inherit r)
-                                      (keepnew (closure g (meta_direct r)) l) (c_meta r) false)) (insts st) (cache st)) x).
+                                      (keepnew (closure g (meta_direct r)) l) (c_meta r) false (c_plain r))) (insts st) (cache st)) x).
       { unfold embed_exc. cbn [classes insts cache]. rewrite map_upd. f_equal. f_equal.
         rewrite generated_add_interfaces_to_cls_meta, Hnb. reflexivity. }
       destruct (c_meta r) as [ml|] eqn:Em; cbn [meta_ref p_is_none_ref negb andb p_getattr_class_of_class
@@ -684,7 +699,8 @@ Qed.
 
 Lemma providedBy_embed g st e t x : p_providedBy g (embed_exc st e) (NI x) t = i_providedBy g st t x.
 Proof.
-  unfold p_providedBy, i_providedBy, spec_direct. destruct t as [o|c]; cbn [embed_exc kinsts kclasses].
+  unfold p_providedBy, i_providedBy, spec_direct. apply (f_equal (orb (Nat.eqb x 0))).
+  destruct t as [o|c]; cbn [embed_exc kinsts kclasses].
   - rewrite nth_error_map. destruct (nth_error (insts st) o) as [r|]; cbn [option_map]; auto.
     cbn [embed_inst ki_provides ki_cls].
     assert (Hc : mem_nat x (kflat_f g (map embed_cls (classes st)) (S (i_cls r)) (NC (i_cls r)))
@@ -735,6 +751,9 @@ Qed.
 Lemma cku_class_ordered ev g st c b a : cache_keys_unique st -> cache_keys_unique (class_ordered ev g st c b a).
 Proof. intros H. unfold class_ordered. destruct (nth_error (classes st) c); auto. apply cku_set_class; auto. Qed.
 
+Lemma cku_set_plain st c pl : cache_keys_unique st -> cache_keys_unique (set_plain st c pl).
+Proof. intros H. unfold set_plain. destruct (nth_error (classes st) c); auto. Qed.
+
 Lemma cku_directly g st t l : cache_keys_unique st -> cache_keys_unique (directly g st t l).
 Proof.
   intros H. destruct t as [o|c]; cbn [directly].
@@ -751,9 +770,9 @@ Proof.
   - destruct (Nat.ltb c (length (classes st))); auto.
   - destruct (nth_error (insts st) o); auto.
   - unfold class_implements. destruct (nth_error (classes st) c); auto. apply cku_class_ordered; auto.
-  - unfold class_only. destruct (nth_error (classes st) c); auto. apply cku_class_ordered, cku_set_class; auto.
+  - unfold class_only. destruct (nth_error (classes st) c); auto. apply cku_set_plain, cku_class_ordered, cku_set_class; auto.
   - unfold class_implements. destruct (nth_error (classes st) c); auto. apply cku_class_ordered; auto.
-  - unfold class_only. destruct (nth_error (classes st) c); auto. apply cku_class_ordered, cku_set_class; auto.
+  - unfold class_only. destruct (nth_error (classes st) c); auto. apply cku_set_plain, cku_class_ordered, cku_set_class; auto.
 Qed.
 
 Lemma cku_run ev g ops : cache_keys_unique (run ev g ops).
@@ -771,15 +790,16 @@ Definition op_target_live (st : state) (o : op) : Prop :=
 
 Lemma generated_step_eq g st o :
   cache_keys_unique st -> is_declaration o = true -> op_target_live st o ->
+  (forall c r, decl_class o = Some c -> nth_error (classes st) c = Some r -> c_plain r = c_decl r) ->
   gen_step g (embed st) o (nargs st (op_args o)) =
   embed_exc (step true g st o) (if raises g (step true g st o) o then Some exc_ValueError else None).
 Proof.
-  intros ND Hd TL. unfold op_target_live in TL.
+  intros ND Hd TL Hpl. unfold op_target_live in TL.
   destruct o; cbn [is_declaration decl_class decl_target] in *; try discriminate;
     cbn [gen_step step raises op_args]; unfold embed.
-  - apply generated_classImplements_eq; auto.
+  - apply generated_classImplements_eq; auto. intros r; apply Hpl; auto.
   - apply generated_classImplementsOnly_eq; auto.
-  - apply generated_classImplements_eq; auto.
+  - apply generated_classImplements_eq; auto. intros r; apply Hpl; auto.
   - apply generated_classImplementsOnly_eq; auto.
   - apply generated_classImplementsFirst_eq; auto.
   - apply generated_directlyProvides_eq; auto.
@@ -797,10 +817,11 @@ Lemma generated_step_eq_spelled g st o :
   NoDup (map fst (cache st)) ->
   (decl_class o <> None \/ decl_target o <> None) ->
   (forall t, decl_target o = Some t -> target_live st t) ->
+  (forall c r, decl_class o = Some c -> nth_error (classes st) c = Some r -> c_plain r = c_decl r) ->
   gen_step g (embed st) o (nargs st (op_args o)) =
   embed_exc (step true g st o) (if raises g (step true g st o) o then Some exc_ValueError else None).
 Proof.
-  intros ND Hd TL. apply generated_step_eq; auto.
+  intros ND Hd TL Hpl. apply generated_step_eq; auto.
   - unfold is_declaration. destruct (decl_class o), (decl_target o); auto. destruct Hd; congruence.
   - unfold op_target_live. destruct (decl_target o); auto.
 Qed.
